@@ -201,6 +201,17 @@ func genNotch(t *rapid.T) gm.G {
 	}
 }
 
+// c14Empties: empty geometries that nevertheless have members.
+var c14Empties = []gm.G{
+	{T: gm.MultiPolygon, Mem: []gm.G{{T: gm.Polygon}}},
+	{T: gm.MultiPolygon, Mem: []gm.G{{T: gm.Polygon}, {T: gm.Polygon}}},
+	{T: gm.MultiLineString, Mem: []gm.G{{T: gm.LineString}, {T: gm.LineString}}},
+	{T: gm.MultiPoint, Mem: []gm.G{{T: gm.Point}}},
+	{T: gm.GeometryCollection, Mem: []gm.G{{T: gm.MultiPolygon, Mem: []gm.G{{T: gm.Polygon}}}, {T: gm.Point}}},
+	{T: gm.GeometryCollection, Mem: []gm.G{{T: gm.GeometryCollection, Mem: []gm.G{{T: gm.LineString}}}}},
+	{T: gm.MultiPolygon, CT: 3, Mem: []gm.G{{T: gm.Polygon, CT: 3}}},
+}
+
 func applyAff(g gm.G, a [6]float64) gm.G {
 	return g.MapPositions(func(p []gm.F, ct int) []gm.F {
 		x, y := float64(p[0]), float64(p[1])
@@ -326,6 +337,14 @@ func c14Check(c C14Case, cx *h.Ctx) *h.Failure {
 			if math.Abs(got-want) > tauA*(1+det)*20 || math.Abs(got-viaT) > tauA*(1+det)*20 {
 				return h.Failf("measure/area-options-combined", "%s.Area(%s) = %.15g, want signed area x det f = %.15g (TransformXY(f).Area(SignedArea) = %.15g)%s", o.name, order, got, want, viaT, desc())
 			}
+		}
+	}
+
+	// empty geometries with members: zero measures and the empty Point as centroid
+	for _, e := range c14Empties {
+		eg := e.ToGeom()
+		if eg.Area() != 0 || eg.Length() != 0 || !eg.Centroid().IsEmpty() {
+			return h.Failf("measure/empty", "%s: Area=%v Length=%v Centroid=%s, want 0, 0, POINT EMPTY", e, eg.Area(), eg.Length(), eg.Centroid().AsText())
 		}
 	}
 
